@@ -66,6 +66,7 @@ def _c(id, gen, n, budget, rew, episodes, **kw):
 class Adapter(EnvAdapter):
     name = "Knapsack"
     props = ("C01", "C03", "C04", "C05", "C06", "C08", "C09", "C10", "C11", "C12")
+    gen_heavy = {'u10_b2p5_sparse': (60, 300), 'u3_b0p8_dense': (60, 300)}
 
     def configs(self, tier):
         pol4 = ["masked", "random", "mostly_masked", "greedy_light"]
